@@ -79,7 +79,7 @@ CLAIMED = {
              "(JF/Props/C10Closed.lean: cell_partition_total_closed, yields_partition_every_leg, pending_partition_closed - every partner has exactly one pending "
              "coverage among the events in the scheduler - under SystemInv's hypotheses incl. TieFreeAll, and CellOfInGrid from a GridBox). The float detour inside translate/relative_cell is tied by "
              "correspondence to the integer torus. KeyError on a leaf mentioned by no line of an intra-object type is modelled as a loud "
-             "error outcome (outside the property; no shipped file affected).",
+             "error outcome (outside the property; no shipped file affected). JF/Props/SystemInv3Occ.lean: cell_partition_total_closed3 - the same partition for the root-level cell system of the composite wirings dipoles/cell_bounded.ini and cell_veto.ini along every run. The check drives the real cell-veto handler with every offset of its domain forced: the proposed cell must be the cell at that offset from the active cell the occupancy records.",
         technique="Lean 4 proof over hand-written models + bit-exact differential correspondence + Counter oracle",
         ref="§5 C10"),
     "C18": dict(
@@ -149,7 +149,7 @@ CLAIMED = {
              "not modelled. At the level of the composed mediator loop (JF/Props/C19Loop.lean) the pickled-and-restored heap scheduler is "
              "proved invisible, ties and error outcomes included: resume_same_loop, resume_at_boundary, resume_repeated (any number of dumps "
              "at any leg boundaries) for every reachable state and every future oracle list; activator bookkeeping, handlers and the list "
-             "scheduler are restored as identity (dill, trusted).",
+             "scheduler are restored as identity (dill, trusted). System level (JF/Props/SystemInvResume.lean): a run of the composed coulomb_atoms system that is dumped and resumed any number of times (heap scheduler pickled and restored) is leg for leg the uninterrupted run (resumed_is_uninterrupted, no tie hypothesis) and satisfies the joint invariant and its corollaries (joint_inv_resumed, c09_fresh_closed_resumed, c11_occinv_closed_resumed, ... under E1's NoTies for the heap->spec direction).",
         technique="Lean 4 proof (observational-equivalence lemma) + differential replay of dumped/resumed real runs",
         ref="§5 C19"),
     "C05": dict(
@@ -261,7 +261,7 @@ CLAIMED = {
              "of the composed mediator loop (E1 scheduler mirror + C09 freshness + C11 mirror + C07 kinematics + C08 currency) that the active "
              "unit is in its recorded cell at every commit (c11_active_in_recorded_cell_closed, c11_occinv_closed), under an explicit no-tie "
              "hypothesis (no sampling/dumping event committed exactly at a pending cell-boundary time: at such a tie C09's freshness really "
-             "fails in the exact reading).",
+             "fails in the exact reading). JF/Props/SystemInv3Occ.lean: for composite objects WITH cell systems (all six shipped wirings, root- and leaf-level systems, two systems at once) the full OccInv holds for every cell system at every leg of every run of the composed mediator loop (c11_occinv_closed3, by one induction; composite_step_rest_fixed: no event displaces a unit at rest), under TieFreeAll3 (counted on runs), OccInit3, CandsOK3/Commits3 and Geo for the positive direction. Run families include hard disks with cells and velocities of both signs, and runs whose heap-scheduler counters wrap around 2^32 inside the trace.",
         technique="Lean 4 proof (invariant by induction) over a hand-written model + differential correspondence + run-level oracle",
         ref="§5 C11"),
     "C16": dict(
@@ -296,7 +296,7 @@ CLAIMED = {
              "pre-computable out-states draw no random numbers. The tie finding (two handlers started in one leg report EQUAL candidate times: the commit "
              "depended on the arrival order) was repaired in /repo (fix 93334e5: times are pushed after the receive loop in activator "
              "order); mp_refines_sp holds without a no-tie hypothesis; the counterexample theorem tie_breaks_refinement is kept for the old "
-             "arrival-order variant only.",
+             "arrival-order variant only. System level (JF/Props/SystemInvMP.lean): a multi-process run of the composed coulomb_atoms system whose world moves by the same step relation IS a Sys.Reach run (mp_run_is_reach, every adversary, every core count), so the joint invariant and its corollaries hold for it (joint_inv_mp, c09_fresh_closed_mp, c08_closed_mp, c11_occinv_closed_mp, commit_times_sorted_closed_mp, no_sample_skipped_mp).",
         technique="Lean 4 proof (stage-machine refinement) + trace validation + schedule-controlled differential runs against the single-process mediator",
         ref="§5 C20"),
     "C02": dict(
